@@ -33,31 +33,31 @@ type Obligation struct {
 // VC accumulates declarations, facts and obligations for one verification unit
 // (one function under contract, or one lemma).
 type VC struct {
-	W      *World
-	S      *Sorts
-	Unit   string
-	decls  []string
-	declOf map[string]bool
-	facts  []string
-	fgroup []string // proof group of each fact ("" = visible to all)
+	W        *World
+	S        *Sorts
+	Unit     string
+	decls    []string
+	declOf   map[string]bool
+	facts    []string
+	fgroup   []string // proof group of each fact ("" = visible to all)
 	curGroup string
-	Obls   []*Obligation
-	n      int
-	wf     map[string]bool
+	Obls     []*Obligation
+	n        int
+	wf       map[string]bool
 	// Outside records why the unit left the modelled subset (fail closed).
-	Outside []string
-	Warn    []string
-	Assumed map[string]bool // assumed contracts / axioms used
-	curPos  token.Position
-	tags    []string
-	tagsFn  []string
-	effTags []string
-	Replay  *ReplayCtx
-	ghostCells map[string]*Cell
-	traceCell, tlenCell *Cell // ghost: the sequence of effectful calls made directly by the unit under verification
-	RegexUses []RegexUse // matches(x, regexVar) occurrences (for replaying language lemmas)
-	pureTerm map[string]string
-	axioms  []string
+	Outside             []string
+	Warn                []string
+	Assumed             map[string]bool // assumed contracts / axioms used
+	curPos              token.Position
+	tags                []string
+	tagsFn              []string
+	effTags             []string
+	Replay              *ReplayCtx
+	ghostCells          map[string]*Cell
+	traceCell, tlenCell *Cell      // ghost: the sequence of effectful calls made directly by the unit under verification
+	RegexUses           []RegexUse // matches(x, regexVar) occurrences (for replaying language lemmas)
+	pureTerm            map[string]string
+	axioms              []string
 }
 
 func NewVC(w *World, unit string) *VC {
@@ -408,7 +408,6 @@ func elemType(t types.Type) types.Type {
 	return nil
 }
 
-
 // traceCells returns the ghost cells of the effect trace, creating them on first use.
 func (vc *VC) traceCells(st *State) (*Cell, *Cell) {
 	if vc.traceCell == nil {
@@ -460,7 +459,6 @@ func (vc *VC) logEffect(st *State, key string, recv string, strs []string, err s
 	st.cells[lc] = vc.define("tlen", "Int", fmt.Sprintf("(+ %s 1)", ln))
 }
 
-
 // ghostCell returns the cell of a specification-only global variable, initialised to an arbitrary value in st.
 func (vc *VC) ghostCell(st *State, name, sort string) *Cell {
 	if vc.ghostCells == nil {
@@ -477,7 +475,6 @@ func (vc *VC) ghostCell(st *State, name, sort string) *Cell {
 	}
 	return c
 }
-
 
 // elemsOf is the set of elements of a []string term. Global axioms tie it to positions:
 // every xs[i] (0 <= i < len) is a member, and every member has a witness position.
